@@ -12,6 +12,9 @@ from rtc import gen, oracle, driver     # noqa: E402
 
 
 def case_fn(case):
+    if case.get("kind") == "derived_edge":
+        from checks import c07 as _c07
+        return _c07.derived_edge_case(case)
     if case.get("kind") == "overrides":
         from rtc import cases as _cases
         return _cases.case_fn(case)
@@ -26,7 +29,7 @@ def case_fn(case):
 
 
 def families(tier, seed):
-    fam = gen.c01_structured() + [x for x in gen.c04_extra() if x[0].startswith("V10")] + gen.c01_random(seed, 24 if tier == "quick" else 1500)
+    fam = gen.c01_structured() + [x for x in gen.c04_extra() if x[0].startswith(("V10", "V5", "V6"))] + gen.c01_random(seed, 24 if tier == "quick" else 1500)
     cases = []
     for tag, feats, model in fam:
         for vec in (False, True):
@@ -36,6 +39,10 @@ def families(tier, seed):
         if tag.split("-")[0] in ("U1", "U3", "U4", "U8"):
             for vec in (False, True):
                 cases.append(dict(tag=tag, features=feats, kind="overrides", model=model, ops=ops, vec=vec, seed=seed))
+    m_e = {t: mm for t, f, mm, o in gen.c07_cases()}["U1-single-node-const"]
+    for which in ("base", "variant"):
+        cases.append(dict(tag=f"U27-edge-override-on-derived-circuit/{which}", features=dict(derived=True, which=which), kind="derived_edge", model=m_e,
+                          which=which, vec=False, seed=seed))
     if tier == "thorough":
         for tag, feats, model in gen.c01_structured():
             cases.append(dict(tag=tag + "/style1", features=dict(feats, style=1), model=model, vec=False, seed=seed + 2, style=1))
